@@ -483,6 +483,8 @@ func (m *Machine) rebuild(x *smt.Term, a []*smt.Term) *smt.Term {
 		return c.FpToInt(a[0], false, x.W)
 	case "fp.to_fp":
 		return c.FpToFp(a[0], x.W)
+	case "dec":
+		return c.Decimal(a[0], x.P[0])
 	case "uf":
 		return c.UF(x.Name, x.W, a...)
 	}
